@@ -478,7 +478,80 @@ def logic_block_part(C):
             ents.append(("mode%d" % i, VObj(Obj("Mode", ObjS("Mode", is_game_mode=Bool, player=Opt(ObjS("Player"))),
                                                 "%s[%d]" % (name, i)))))
         return I.new_dict(ents, name)
-    C.cls("ModeController", file=MC, fields=dict(machine=ObjS("MachineController", modes=Init(modes3))))
+    def active2(I, name):
+        n = I.ctx.fork(3)
+        return I.new_list([VObj(Obj("Mode", ObjS("Mode", is_game_mode=Bool, auto_stop_on_ball_end=Bool,
+                                                 restart_on_next_ball=Bool, stopping=Bool, name=Str,
+                                                 player=Opt(ObjS("Player"))), "%s[%d]" % (name, i)))
+                           for i in range(n)], name)
+
+    def mode_stop(I, env, a, k):
+        emit(I, "mode.stop", mode=env["self"].ref, callback=k.get("callback", a[0] if a else NONE))
+        return VBool(True)
+    C.ext("Mode.stop", model=mode_stop,
+          trusted_reason="Mode.stop (C07/C02): registers the callback, which runs once the mode has stopped - also "
+                         "when the mode is already stopping")
+    C.cls("BallEndQueue", fields=dict(waiting=Bool))
+
+    def q_wait(I, env, a, k):
+        I.write_field(env["self"].ref, "waiting", VBool(True))
+        emit(I, "queue.wait")
+        return NONE
+
+    def q_clear(I, env, a, k):
+        I.write_field(env["self"].ref, "waiting", VBool(False))
+        emit(I, "queue.clear")
+        return NONE
+    C.ext("BallEndQueue.wait", model=q_wait, trusted_reason="QueuedEvent (C02)")
+    C.ext("BallEndQueue.clear", model=q_clear, trusted_reason="QueuedEvent (C02)")
+    C.cls("ModeController", file=MC, fields=dict(
+        machine=ObjS("MachineController", modes=Init(modes3),
+                     game=ObjS("Game", player=ObjS("GamePlayer", restart_modes_on_next_ball=Init(
+                         lambda I, name: I.new_list([], name))))),
+        active_modes=Init(active2), queue=Opt(ObjS("BallEndQueue")), mode_stop_count=Int))
+
+    def stops_requested(I):
+        """every active game mode that stops at ball end got exactly one stop(callback=_mode_stopped_callback), in
+        order - including modes that are already stopping - and nobody else"""
+        this = I.frames[0].env["self"].ref
+        modes = I.container(I.force(I.read_field(this, "active_modes", heap=I.old_heap)).ref, heap=I.old_heap).items
+        evs = events_named(I, "mode.stop")
+        want = []
+        conds = []
+        # the set of modes is concrete, their flags symbolic: build the expected call list under each flag valuation
+        for m in modes:
+            g = z3.And(I.truth(I.read_field(m.ref, "is_game_mode", heap=I.old_heap)),
+                       I.truth(I.read_field(m.ref, "auto_stop_on_ball_end", heap=I.old_heap)))
+            n_calls = len([e for e in evs if e.args["mode"] is m.ref])
+            cb_ok = all(I.force(e.args["callback"]).tag == "fn" and I.force(e.args["callback"]).kind == "bound" and
+                        I.force(e.args["callback"]).name == "_mode_stopped_callback"
+                        for e in evs if e.args["mode"] is m.ref)
+            conds.append(z3.If(g, z3.BoolVal(n_calls == 1 and cb_ok), z3.BoolVal(n_calls == 0)))
+        return VBool(z3.And(*conds) if conds else z3.BoolVal(True))
+    C.helpers["stops_requested"] = stops_requested
+    C.helpers["n_mode_stops"] = lambda I: VInt(len(events_named(I, "mode.stop")))
+    C.helpers["n_queue_clear"] = lambda I: VInt(len(events_named(I, "queue.clear")))
+    C.helpers["n_queue_wait"] = lambda I: VInt(len(events_named(I, "queue.wait")))
+    C.trace_helpers |= {"stops_requested", "n_mode_stops", "n_queue_clear", "n_queue_wait"}
+    C.fn("ModeController._ball_ending", params=dict(queue=ObjS("BallEndQueue")),
+         loops={0: LoopSpec(invariant=[], unroll=True)},
+         ensures=[("T3: the ball does not end (and the next player's turn cannot start) before every game mode that "
+                   "stops at ball end has stopped: each of them - also one that is already stopping - is asked to "
+                   "stop with the completion callback, and the count of awaited callbacks is their number",
+                   "stops_requested() and implies(len(old(self.active_modes)) > 0, self.mode_stop_count == "
+                   "n_mode_stops())"),
+                  ("the queue is held exactly while a stop is awaited",
+                   "implies(len(old(self.active_modes)) > 0, n_queue_wait() == 1 and n_queue_clear() == "
+                   "(1 if n_mode_stops() == 0 else 0))")],
+         modifies=["self.queue", "self.mode_stop_count", "queue.waiting",
+                   "self.machine.game.player.restart_modes_on_next_ball.**"], raises={},
+         bounded="BOUNDED: at most 2 active modes")
+    C.fn("ModeController._mode_stopped_callback",
+         requires=[("a stop is awaited", "self.mode_stop_count >= 1 and self.queue is not None")],
+         ensures=[("the queue is released exactly when the last awaited mode has stopped",
+                   "self.mode_stop_count == old(self.mode_stop_count) - 1 and n_queue_clear() == "
+                   "(1 if self.mode_stop_count == 0 else 0)")],
+         modifies=["self.mode_stop_count", "self.queue.waiting"], raises={})
 
     def modes_point_at(I, target):
         this = I.frames[0].env["self"].ref
@@ -510,4 +583,10 @@ def build_extra():
     C3 = ContractSet("C11", "persisted logic-block state and the per-turn player pointer of game modes")
     C3.strings = True
     logic_block_part(C3)
-    return [C2, C3]
+    # the timer device keeps its player after the mode stops: what C11 needs from it is that a removed timer has
+    # nothing left that could run later (the Timer contracts of C13, re-checked here)
+    from . import C13
+    C4 = C13.build()
+    C4.pid = "C11t"
+    C4.only_verify = ["Timer.stop", "Timer.device_removed_from_mode"]
+    return [C2, C3, C4]
